@@ -1,3 +1,4 @@
+import re
 """C09 — Recursion is cut into named components, finitely and without aliasing (marker protocol, naming, predicate agreement)."""
 from facts import hir_walk, callee_of, callee_def, variant_of
 import pathrules as P
@@ -53,7 +54,7 @@ def r1_marker(c, facts):
     for cb, ct in ck:
         sw = fn.mir['blocks'][ct['target']]['term']
         if sw['t'] == 'switch' and sw['discr'].get('l') == ct['dest']['l']:
-            f_t = [b for v, b in sw['targets'] if v == '0']
+            f_t = [P.enum_edges(sw)['0']] if '0' in P.enum_edges(sw) else []
             if f_t and fn.dominates(f_t[0], mb):
                 guarded = True
                 true_target = sw['otherwise']
@@ -81,8 +82,8 @@ def r1_marker(c, facts):
             sw = fn.mir['blocks'][b]['term']
             if sw['t'] != 'switch':
                 continue
-            none_t = [x for v, x in sw['targets'] if v == '0']
-            some_t = [x for v, x in sw['targets'] if v == '1']
+            none_t = [P.enum_edges(sw)['0']] if '0' in P.enum_edges(sw) else []
+            some_t = [P.enum_edges(sw)['1']] if '1' in P.enum_edges(sw) else []
             if not none_t or not some_t:
                 continue
             for b2, blk in fn.blocks():
@@ -317,7 +318,35 @@ def r4_graph_complete(c, facts):
         c.bad(R, 'connect-adds-no-edge', 'Builder::connect no longer adds an edge')
 
 
+def r5_recursion_is_schema(c, facts):
+    """the recursion marker stands for a schema: a cast that accepts every ordinary schema value accepts it too"""
+    from absint import Interp
+    R = c.rule('C09.R5', 'RECURSION-IS-SCHEMA: every cast that accepts all schema values also accepts the recursion marker and a named reference')
+    it = Interp(facts, 'Expr')
+    SCHEMAS = ['Object', 'Array', 'PrimString', 'PrimNumber', 'PrimInteger', 'PrimBoolean', 'Uri']
+    n = 0
+    for q, l in sorted(facts.by_qname.items()):
+        m = re.match(r'oal_compiler::eval::(cast_\w+)$', q)
+        if not m or not l[0].hir or not l[0].hir['params']:
+            continue
+        fn = l[0]
+        try:
+            acc = {v: it.accepts(fn, v) for v in SCHEMAS + ['Recursion', 'Reference']}
+        except Exception:
+            continue
+        if not all(acc[v] for v in SCHEMAS):
+            continue
+        n += 1
+        missing = [v for v in ('Recursion', 'Reference') if not acc[v]]
+        if missing:
+            c.bad(R, '%s:rejects:%s' % (m.group(1), ','.join(missing)), '%s accepts every schema value but panics on %s: a recursive definition used at that position is accepted by the checker and aborts the evaluation' % (q, missing))
+        else:
+            c.ok(R, {'cast': q, 'accepts': 'all schema values, Recursion and Reference'})
+    c.floor(R, 'casts that accept every schema value', n, 3)
+
+
 def run(c, facts):
+    c.run(r5_recursion_is_schema, facts)
     c.run(r4_graph_complete, facts)
     c.run(r1_marker, facts)
     c.run(r2_scoped_id, facts)
